@@ -40,7 +40,8 @@ ASSUMPTIONS = [
 ]
 
 # "e\u0301x": a decomposed (non-NFC) name, as found in folders copied from macOS - listed names must be used as they are
-SIM_STEMS = ["a", "b", "Song", "x y", "e\u0301x"]
+# "w\\in": a literal backslash in a name (legal on POSIX and in PyFilesystem; what unpacking a Windows-made archive leaves)
+SIM_STEMS = ["a", "b", "Song", "x y", "e\u0301x", "w\\in"]
 SM_EXTS = [".sm", ".SM", ".Sm", ".sM"]
 SSC_EXTS = [".ssc", ".SSC", ".SsC", ".sSc"]
 NEAR = ["x.sm.old", "x.ssca", "sm", "ssc", "x.smx", "x.ssc.bak", "xsm", "x.sm_", "SM", "x.ssc~", "x.s", "x.sc", "a.sm.txt", "ssc.x"]
@@ -48,7 +49,7 @@ OTHER = ["banner.png", "BG.JPG", "x.ogg", "song.MP3", "notes.txt", "README", "a.
 # directory names include ones that look like loose files (a song folder may be called "Butterfly.ogg"); names ending in
 # .sm / .ssc are not used for directories: the quantifier builds trees from *file* names with simfile extensions (a
 # directory called "Remix.SM" is taken for an SM file by SimfileDirectory - observed, outside the stated domain)
-DIRNAMES = ["Song A", "songB", "empty", "nested", "z", "Extras", "sub dir", "B", "Butterfly.ogg", "cover.png", "docs.txt", "old.sm.bak", "Cafe\u0301 Mix"]
+DIRNAMES = ["Song A", "songB", "empty", "nested", "z", "Extras", "sub dir", "B", "Butterfly.ogg", "cover.png", "docs.txt", "old.sm.bak", "Cafe\u0301 Mix", "Pack\\Song"]
 # "straycp": stray text AND bytes that only a fallback code page decodes (options must survive the fallback attempts)
 BODY_KINDS = ["plain", "plain", "plain", "stray", "stray", "u8", "u8", "cp", "straycp", "strayu8"]
 DEFAULT_ENCODINGS = ["utf-8", "cp1252", "cp932", "cp949"]
@@ -74,7 +75,7 @@ def ext_of(name):
 
 
 def title_for(relpath, kind):
-    t = relpath.replace("/", "|").encode("ascii", "replace").decode()  # names may hold characters a code page lacks
+    t = relpath.replace("/", "|").replace("\\", "!").encode("ascii", "replace").decode()  # names may hold characters a code page lacks
     if kind in ("u8", "cp", "straycp", "strayu8"):
         return "café " + t
     return t
